@@ -37,7 +37,7 @@ class C05(Prop):
                "aioswitcher.bridge:DatagramParser.get_ip_type2", "aioswitcher.bridge:DatagramParser.get_mac",
                "aioswitcher.bridge:DatagramParser.get_name", "aioswitcher.bridge:DatagramParser.get_shutter_position",
                "aioswitcher.bridge:DatagramParser.get_thermostat_remote_id", "aioswitcher.bridge:UdpClientProtocol.datagram_received"]
-    min_evaluations = {"quick": 8_000, "thorough": 200_000}
+    min_evaluations = {"quick": 40_000, "thorough": 400_000}
     budget_s = {"quick": 60, "thorough": 900}
 
     def selftest(self):
@@ -58,7 +58,7 @@ class C05(Prop):
         self.rig.uninstall(asyncio.get_running_loop())
 
     def cases(self, tier, seed, shard, nshards):
-        n = {"quick": 640, "thorough": 30_000}[tier]
+        n = {"quick": 3_200, "thorough": 40_000}[tier]
         for i in range(shard, n, nshards):
             yield {"i": i, "seed": seed}
 
